@@ -139,8 +139,9 @@ class VTuple(V):
 class VList(V):
     """parts: for concatenations, [(offset T, sublist VList)] — equality is then stated part-wise so that
     each part's own element terms trigger the instantiation."""
-    def __init__(self, n, at, ety, src=None, parts=None):
+    def __init__(self, n, at, ety, src=None, parts=None, shift=None):
         self.n, self.at, self.ety, self.src, self.parts = n, at, ety, src, parts
+        self.shift = shift    # for tail slices xs[lo:]: (xs, clamped lo) — facts are also stated over the source index
 
 
 def list_parts(v):
@@ -172,6 +173,12 @@ class VRef(V):
 class VExc(V):
     def __init__(self, names):
         self.names = names  # tuple of class names
+
+
+class VKwargs(V):
+    """The contents of a **kwargs parameter, named by the contract (e.g. delimiter, strict)."""
+    def __init__(self, items):
+        self.items = dict(items)
 
 
 class VOpaque(V):
@@ -474,7 +481,19 @@ def veq(ctx, a, b, st=None):
             body = veq(ctx, a.at(i), b.at(i), st)
         finally:
             ctx.bound.pop()
-        return And(Eq(a.n, b.n), ForAll([i], Implies(And(Le(Int(0), i), Lt(i, a.n)), body)))
+        extra = []
+        for x_, y_ in ((a, b), (b, a)):
+            if getattr(x_, "shift", None) is not None and getattr(y_, "shift", None) is None:
+                # x_ = base[lo:]: the same equality indexed by the position in base (element terms of base then trigger it)
+                base_, lo_ = x_.shift
+                u = ctx.bvar("u", "Int")
+                ctx.bound.append(u)
+                try:
+                    body_u = veq(ctx, y_.at(Sub(u, lo_)), base_.at(u), st)
+                finally:
+                    ctx.bound.pop()
+                extra.append(ForAll([u], Implies(And(Le(lo_, u), Lt(u, base_.n)), body_u)))
+        return And(Eq(a.n, b.n), ForAll([i], Implies(And(Le(Int(0), i), Lt(i, a.n)), body)), *extra)
     if isinstance(a, VSet) and isinstance(b, VSet):
         if a.parts is not None and b.parts is not None:
             return And(subset_by_parts(ctx, a, b), subset_by_parts(ctx, b, a))
@@ -585,7 +604,9 @@ def vite(ctx, c, a, b):
         ao, bo = as_opt(a, b), as_opt(b, a)
         return VOpt(Ite(c, ao.isnone, bo.isnone), vite(ctx, c, ao.val, bo.val), ao.ty)
     if isinstance(a, VList) and isinstance(b, VList):
-        return VList(Ite(c, a.n, b.n), lambda i: vite(ctx, c, a.at(i), b.at(i)), a.ety)
+        out = VList(Ite(c, a.n, b.n), lambda i: vite(ctx, c, a.at(i), b.at(i)), a.ety)
+        out.ite_of = (c, a, b)       # membership distributes over the choice (keeps each side's own structure)
+        return out
     if isinstance(a, VSet) and isinstance(b, VSet):
         return VSet(lambda x: Ite(c, a.has(x), b.has(x)), a.ety)
     if isinstance(a, VDict) and isinstance(b, VDict):
@@ -873,7 +894,7 @@ class Engine:
                     return VList(n, base.at, base.ety, parts=parts)
                 if lo is not None and hi is None:
                     l0 = Ite(Lt(lo.t, base.n), Ite(Lt(lo.t, Int(0)), Int(0), lo.t), base.n)
-                    return VList(Sub(base.n, l0), lambda i: base.at(Add(i, l0)), base.ety)
+                    return VList(Sub(base.n, l0), lambda i: base.at(Add(i, l0)), base.ety, shift=(base, l0))
                 raise Unsupported("two-sided list slice")
             raise Unsupported("slice of " + type(base).__name__)
         idx = self.ev(sl, env, st)
@@ -1014,11 +1035,23 @@ class Engine:
             return container.has(x)
         if isinstance(container, VDict):
             return container.has(x)
+        if isinstance(container, VList) and getattr(container, "ite_of", None) is not None:
+            cond, a_, b_ = container.ite_of
+            return Ite(cond, self.contains(a_, x, st), self.contains(b_, x, st))
         if isinstance(container, VList) and container.parts is not None:
             return Or(*[self.contains(sub, x, st) for off, sub in container.parts])
         if isinstance(container, VList):
             if re.fullmatch(r"\d+", container.n.s) and int(container.n.s) <= 3:
                 return Or(*[veq(c, container.at(Int(k)), x, st) for k in range(int(container.n.s))])
+            if getattr(container, "shift", None) is not None:
+                base_, lo_ = container.shift
+                u = c.bvar("u", "Int")
+                c.bound.append(u)
+                try:
+                    body = veq(c, base_.at(u), x, st)
+                finally:
+                    c.bound.pop()
+                return Exists([u], And(Le(lo_, u), Lt(u, base_.n), body))
             i = c.bvar("i", "Int")
             c.bound.append(i)
             try:
@@ -1110,7 +1143,21 @@ class Engine:
 
     def ev_Dict(self, node, env, st):
         if node.keys:
-            raise Unsupported("non-empty dict display")
+            # {k1: v1, ...} with constant string keys and values of one type; later entries win
+            if any(k is None or not (isinstance(k, ast.Constant) and isinstance(k.value, str)) for k in node.keys):
+                raise Unsupported("dict display with non-constant keys")
+            items = [(self.ev(k, env, st), self.ev(v, env, st)) for k, v in zip(node.keys, node.values)]
+            tys = {repr(ty_of(v)) for _, v in items}
+            if len(tys) != 1:
+                raise Unsupported("heterogeneous dict display")
+            c = self.ctx
+
+            def get(k, items=items):
+                out = items[0][1]
+                for kk, vv in items[1:]:
+                    out = vite(c, veq(c, k, kk), vv, out)
+                return out
+            return VDict(lambda k, items=items: Or(*[veq(c, k, kk) for kk, _ in items]), get, "str", ty_of(items[0][1]))
         junk = self.ctx.fresh("junk", "str")
         d = VDict(lambda k: FALSE, lambda k: junk, "str", "str")
         d.empty = True
@@ -1218,6 +1265,12 @@ class Engine:
                 for t, x in zip(target.elts, v.items):
                     out.update(self.bind_target(t, x))
                 return out
+            if (isinstance(v, VList) and len(target.elts) == 2 and isinstance(target.elts[0], ast.Name)
+                    and isinstance(target.elts[1], ast.Starred) and isinstance(target.elts[1].value, ast.Name)):
+                # (first, *rest) bound to a list: ValueError when it is empty
+                self.side(Le(Int(1), v.n), "ValueError")
+                rest = VList(Sub(v.n, Int(1)), lambda i, v=v: v.at(Add(i, Int(1))), v.ety, shift=(v, Int(1)))
+                return {target.elts[0].id: v.at(Int(0)), target.elts[1].value.id: rest}
         raise Unsupported("binding target")
 
     def comp(self, generators, env, st, body_fn, kind):
@@ -1430,6 +1483,19 @@ class Engine:
                     return self.ev(node.args[0], env2, pre_state)
                 finally:
                     self.old_stack.pop()
+            if name == "isinstance" and len(node.args) == 2 and isinstance(node.args[1], ast.Name) and node.args[1].id in FIELDS:
+                # decided by the declared (annotated) type of the value: objects are of exactly their declared class
+                v = self.ev(node.args[0], env, st)
+                if isinstance(v, VRef):
+                    self.ctx.trusted.add("isinstance(x, C) decided by the annotated type of x")
+                    return VBool(TRUE if v.cls == node.args[1].id else FALSE)
+                raise Unsupported("isinstance on " + type(v).__name__)
+            if name == "isinstance" and len(node.args) == 2 and isinstance(node.args[1], ast.Name) and node.args[1].id in ("str", "dict"):
+                v = self.ev(node.args[0], env, st)
+                if isinstance(v, (VStr, VDict)):
+                    self.ctx.trusted.add("isinstance(x, C) decided by the annotated type of x")
+                    return VBool(TRUE if isinstance(v, VStr) == (node.args[1].id == "str") else FALSE)
+                raise Unsupported("isinstance on " + type(v).__name__)
             if name in ("_fresh", "_alloc") and len(node.args) == 1:
                 v = self.unopt(self.ev(node.args[0], env, st))
                 if not isinstance(v, VRef):
